@@ -1,0 +1,53 @@
+//go:build verif
+
+package agent
+
+import (
+	"context"
+
+	"github.com/honeycombio/refinery/logger"
+	"github.com/jonboulle/clockwork"
+	"github.com/open-telemetry/opamp-go/client"
+)
+
+// Verification harness exports (compiled only with -tags verif): an Agent that has just what
+// sendUsageReport needs, and access to its usage tracker.
+
+func VerifC34Agent(c client.OpAMPClient, clock clockwork.Clock) (*Agent, context.CancelFunc) {
+	ctx, cancel := context.WithCancel(context.Background())
+	a := &Agent{
+		ctx:          ctx,
+		cancel:       cancel,
+		logger:       Logger{Logger: &logger.NullLogger{}},
+		agentType:    serviceName,
+		agentVersion: "verif",
+		hostname:     "verif-host",
+		opampClient:  c,
+		usageTracker: newUsageTracker(),
+		clock:        clock,
+	}
+	return a, cancel
+}
+
+func (agent *Agent) VerifC34Add(signal string, cumulative float64) {
+	agent.usageTracker.Add(usageSignal(signal), cumulative)
+}
+
+func (agent *Agent) VerifC34SendUsageReport() error { return agent.sendUsageReport() }
+
+// VerifC34Pending returns copies of the not-yet-reported and the reported-but-unconfirmed deltas.
+func (agent *Agent) VerifC34Pending() (current, last map[string]float64) {
+	ur := agent.usageTracker
+	ur.mut.Lock()
+	defer ur.mut.Unlock()
+	current, last = map[string]float64{}, map[string]float64{}
+	for k, v := range ur.currentDataPoints {
+		current[string(k)] = v
+	}
+	for k, v := range ur.lastDataPoints {
+		last[string(k)] = v
+	}
+	return current, last
+}
+
+func VerifC34IsNoData(err error) bool { return err == errNoData }
